@@ -122,7 +122,7 @@ def replay_call(ob, call):
 
 def run_obligations(run, obs, jobs=None, key_of=None, confirm=None):
     """Run all obligations in parallel; record into `run` (vcommon.Run)."""
-    jobs = jobs or min(16, os.cpu_count() or 4)
+    jobs = jobs or int(os.environ.get('VERIF_JOBS', 0)) or min(16, os.cpu_count() or 4)
     subprocess.run([os.path.join(VERIF, 'bin', 'ensure_env')], check=True)
     results = []
     with cf.ThreadPoolExecutor(max_workers=jobs) as ex:
